@@ -36,6 +36,8 @@ func main() {
 	replay := flag.String("replay", "", "tape file to replay natively")
 	extra := flag.String("overlay", "", "extra overlay entries virtual=real,virtual=real")
 	noinit := flag.Bool("noinit", false, "do not run the package initialiser")
+	constHex := flag.Bool("consthex", false, "hex.EncodeToString of opaque (tagged) bytes yields a constant string instead of an injective one: a map keyed by it then has one entry (used where the keyed comparison is not the subject and makes the algebra queries undecidable in time)")
+	tags := flag.String("tags", "", "build tags for loading the packages (e.g. math_big_pure_go: math/big without assembly)")
 	mapOrder := flag.Bool("maporder", false, "explore every map iteration order")
 	redir := flag.String("redirect", "", "library function redirects lib.Func=harnessFunc,...")
 	allTraces := flag.Bool("alltraces", false, "print the choice trace of every violating path")
@@ -180,6 +182,9 @@ func main() {
 	t0 := time.Now()
 	cfg := &packages.Config{Mode: packages.LoadAllSyntax, Dir: *dir, Env: append(os.Environ(), "GOFLAGS=-mod=mod", "GOPROXY=off", "GODEBUG=goindex=0"),
 		Overlay: map[string][]byte{*dir + "/zz_verif_harness.go": src, *dir + "/zz_verif_vnd.go": vndSrc}}
+	if *tags != "" {
+		cfg.BuildFlags = []string{"-tags=" + *tags}
+	}
 	for i, hf := range hfiles[1:] {
 		cfg.Overlay[fmt.Sprintf("%s/zz_verif_harness_%d.go", *dir, i+1)] = readH(hf)
 	}
@@ -212,7 +217,7 @@ func main() {
 	}
 	load := time.Since(t0)
 	e := &Engine{prog: prog, pkg: pkg, sol: NewSolver(*z3), violations: map[string]*Violation{}, vcount: map[string]int{}, covers: map[string]int{},
-		funcs: map[string]bool{}, incomplete: map[string]int{}, ends: map[string]int{}, loopBound: *loop, maxPaths: *maxPaths, preemptBound: *pre, noinit: *noinit, detSched: *det, mapOrder: *mapOrder, redirects: map[string]string{}, vtraces: map[string][]string{}, coverModels: map[string]*Violation{}, raceOn: *raceOn, realHex: *realHex, asn1Havoc: *havoc, concreteClock: *cclock, asn1MaxVec: *maxVec, acqOnly: *acq, debugDeadlock: os.Getenv("SYMGO_DEBUG_DEADLOCK") != ""}
+		funcs: map[string]bool{}, incomplete: map[string]int{}, ends: map[string]int{}, loopBound: *loop, maxPaths: *maxPaths, preemptBound: *pre, noinit: *noinit, constHex: *constHex, detSched: *det, mapOrder: *mapOrder, redirects: map[string]string{}, vtraces: map[string][]string{}, coverModels: map[string]*Violation{}, raceOn: *raceOn, realHex: *realHex, asn1Havoc: *havoc, concreteClock: *cclock, asn1MaxVec: *maxVec, acqOnly: *acq, debugDeadlock: os.Getenv("SYMGO_DEBUG_DEADLOCK") != ""}
 	if pkgs[0].Module != nil {
 		e.modPrefix = pkgs[0].Module.Path
 		if i := strings.Index(e.modPrefix, "/mpc/"); i > 0 { // sub-modules of the repository share the root prefix
